@@ -224,7 +224,7 @@ int64_t iwatoi(const char *str) {
     str++;
   }
   int sign = 1;
-  int64_t num = 0;
+  uint64_t num = 0;
   if (*str == '-') {
     str++;
     sign = -1;
@@ -238,10 +238,10 @@ int64_t iwatoi(const char *str) {
     if ((*str < '0') || (*str > '9')) {
       break;
     }
-    num = num * 10 + *str - '0';
+    num = num * 10 + (uint64_t) (*str - '0');
     str++;
   }
-  return num * sign;
+  return (int64_t) (sign < 0 ? 0 - num : num);
 }
 
 int64_t iwatoi2(const char *str, size_t len) {
@@ -253,7 +253,7 @@ int64_t iwatoi2(const char *str, size_t len) {
     return 0;
   }
   int sign = 1;
-  int64_t num = 0;
+  uint64_t num = 0;
   if (*str == '-') {
     str++;
     len--;
@@ -269,11 +269,11 @@ int64_t iwatoi2(const char *str, size_t len) {
     if ((*str < '0') || (*str > '9')) {
       break;
     }
-    num = num * 10 + *str - '0';
+    num = num * 10 + (uint64_t) (*str - '0');
     str++;
     len--;
   }
-  return num * sign;
+  return (int64_t) (sign < 0 ? 0 - num : num);
 }
 
 long double iwatof(const char *str) {
